@@ -31,6 +31,7 @@ type Obligation struct {
 	Anc     map[int]bool // explicit set of relevant blocks (obligations split over the arms of a wide join)
 	replayed bool
 	candidate bool
+	clauseTagged bool // the clause this obligation comes from carries its own property tags
 	fv *FuncVC
 	// results
 	Res    SolveResult
@@ -194,6 +195,7 @@ type FuncVC struct {
 	lenient bool
 	inert bool
 	replayTemplate string
+	mentions       map[string]bool
 	iterInit       map[string]bool
 	covers         map[*Clause][]string // ensures clause A ==> B: (reach && A) at each return
 	replayArgs []replayArg
@@ -305,6 +307,7 @@ func (fv *FuncVC) oblige(kind, detail string, props []string, pos token.Pos, goa
 	if n > 0 {
 		name = fmt.Sprintf("%s@%d", name, n+1)
 	}
+	tagged := props != nil
 	if props == nil && fv.C != nil {
 		props = fv.C.Props
 	}
@@ -337,7 +340,7 @@ func (fv *FuncVC) oblige(kind, detail string, props []string, pos token.Pos, goa
 				}
 				anc[J.Index] = true
 				o := &Obligation{Block: blk, Anc: anc, Name: fmt.Sprintf("%s~arm%d", name, k), Kind: kind, Props: props, Pos: pos, Where: fv.P.relPos(pos), Src: src,
-					NAssert: len(fv.asserts), Reach: smtAnd(fv.curReach, fv.edgeReach(q, J)), Goal: goal, Func: fv.Name, fv: fv}
+					NAssert: len(fv.asserts), Reach: smtAnd(fv.curReach, fv.edgeReach(q, J)), Goal: goal, Func: fv.Name, fv: fv, clauseTagged: tagged}
 				fv.obls = append(fv.obls, o)
 				last = o
 			}
@@ -347,7 +350,7 @@ func (fv *FuncVC) oblige(kind, detail string, props []string, pos token.Pos, goa
 		}
 	}
 	o := &Obligation{Block: blk, Name: name, Kind: kind, Props: props, Pos: pos, Where: fv.P.relPos(pos), Src: src,
-		NAssert: len(fv.asserts), Reach: fv.curReach, Goal: goal, Func: fv.Name, fv: fv}
+		NAssert: len(fv.asserts), Reach: fv.curReach, Goal: goal, Func: fv.Name, fv: fv, clauseTagged: tagged}
 	fv.obls = append(fv.obls, o)
 	return o
 }
@@ -957,6 +960,43 @@ func (fv *FuncVC) constVal(c *ssa.Const) Term {
 	}
 	fv.unsupported("constant %s of type %s", c, t)
 	return Term{}
+}
+
+func sortedAllocs(m map[*ssa.Alloc]bool) []*ssa.Alloc {
+	var ks []*ssa.Alloc
+	for k := range m {
+		ks = append(ks, k)
+	}
+	sort.Slice(ks, func(i, j int) bool {
+		if ks[i].Pos() != ks[j].Pos() {
+			return ks[i].Pos() < ks[j].Pos()
+		}
+		return ks[i].Name() < ks[j].Name()
+	})
+	return ks
+}
+
+func sortedGlobals(m map[*ssa.Global]bool) []*ssa.Global {
+	var ks []*ssa.Global
+	for k := range m {
+		ks = append(ks, k)
+	}
+	sort.Slice(ks, func(i, j int) bool { return ks[i].String() < ks[j].String() })
+	return ks
+}
+
+func sortedValues(m map[ssa.Value]bool) []ssa.Value {
+	var ks []ssa.Value
+	for k := range m {
+		ks = append(ks, k)
+	}
+	sort.Slice(ks, func(i, j int) bool {
+		if ks[i].Pos() != ks[j].Pos() {
+			return ks[i].Pos() < ks[j].Pos()
+		}
+		return ks[i].Name() < ks[j].Name()
+	})
+	return ks
 }
 
 func sortedKeys(m map[string]bool) []string {
